@@ -57,6 +57,9 @@ TDepth == /\ Is("depth") /\ (Strict09 => Ev.v = nenq - consumed)
           /\ UNCHANGED <<nenq, consumed, wSync, cSync>>
 TRec   == /\ Is("rec")
           /\ (Strict08 => /\ ~Ev.hang /\ Ev.sentinel /\ Ev.extra = 0
+                          \* life after the recovery (C08PostFifo of DiskQueue.tla): three more messages, enqueued
+                          \* and taken interleaved, come out in enqueue order, each once, nothing else
+                          /\ Ev.post = <<1, 2, 3>>
                           /\ RecoveryOK(Ev.D, nenq, consumed, wSync, cSync))
           /\ UNCHANGED <<nenq, consumed, wSync, cSync>>
 
